@@ -9,9 +9,17 @@
 
   Part 2: the follower read-sync LTS (`revisionSyncer.SyncReadRevision`): the leader's committed revision
   advances; a follower read fetches it through a single-flight group (`flight.Do("get_revision", …)`),
-  stores it with a plain `SetCurrentRevision` and then reads its backend at whatever the read revision is
-  at that moment.  The model is AS THE CODE IS (`asIs`); the two repairs proposed in
-  proposed-fixes/C18-*.diff are switches of `Variant` so that their effect is a theorem too.
+  stores it with `SetCurrentRevision` (`tso.Commit`: since /repo commit db7d4ff a compare-and-swap loop that
+  only ever RAISES the committed revision; before it a plain store) and then reads its backend at whatever
+  the read revision is at that moment.  The model is AS THE CODE IS (`asIs` = monotone store, single-flight
+  results shared with late joiners); `beforeFix` is the code before db7d4ff (kept for the witness of the
+  repaired defect); the remaining repair proposed in proposed-fixes/C18-*.diff is the other switch of
+  `Variant`, so that its effect is a theorem too.
+
+  Part 3: a follower forwarding a write transaction to the leader through the etcd proxy (`etcdProxy.Txn`):
+  the transaction is sent ONCE; when the call ends with `codes.Unavailable` (which grpc reports both when the
+  peer refuses and when the answer is lost after the leader executed the request) that error is passed to the
+  client.  `forward` has the re-send as a switch so that why it must not be done is a theorem.
 -/
 namespace KB.Server
 
@@ -184,16 +192,22 @@ inductive Step
   | readServe (r : Nat)
   deriving DecidableEq, Repr
 
-/-- The code as it is, and the two proposed repairs as switches. -/
+/-- The code as it is, the code as it was, and the proposed repair, as switches. -/
 structure Variant where
-  /-- `SetCurrentRevision` on the follower only ever raises the read revision -/
+  /-- `SetCurrentRevision` on the follower only ever raises the read revision (`tso.Commit` since db7d4ff) -/
   monotoneSet : Bool
   /-- a reader that joined a fetch which had started before the reader called in discards that result and
   calls `flight.Do` again (generation check) -/
   retryLateJoin : Bool
   deriving DecidableEq, Repr
 
-def asIs : Variant := { monotoneSet := false, retryLateJoin := false }
+/-- The code as it is NOW: `naiveTSO.Commit` raises the committed revision with a compare-and-swap loop and
+ignores older values (db7d4ff); a reader that joins an already answered fetch still uses its result. -/
+def asIs : Variant := { monotoneSet := true, retryLateJoin := false }
+/-- The code before db7d4ff (`SetCurrentRevision` = `atomic.StoreUint64`): historical, for the witness of the
+repaired defect `late-set-lowers-revision`. -/
+def beforeFix : Variant := { monotoneSet := false, retryLateJoin := false }
+/-- The code as it is plus the proposed generation check around `flight.Do`. -/
 def fixed : Variant := { monotoneSet := true, retryLateJoin := true }
 
 def upd (f : Nat → Read) (r : Nat) (x : Read) : Nat → Read := fun i => if i = r then x else f i
@@ -257,6 +271,12 @@ def Reachable (vt : Variant) (s : State) : Prop := ∃ n tr, run vt (init n) tr 
 when that read began. -/
 def Fresh (s : State) : Prop := ∀ r v, (s.reads r).phase = .served v → (s.reads r).beginRev ≤ v
 
+/-- `Fresh` for the reads that ran (or joined in time) their OWN fetch: every served read that did not join
+a fetch the leader had already answered (`late = false`) was served at a revision not below the leader's
+committed revision when it began. -/
+def FreshOwn (s : State) : Prop :=
+  ∀ r v, (s.reads r).phase = .served v → (s.reads r).late = false → (s.reads r).beginRev ≤ v
+
 /-- No read other than `r` is between its begin and its end. -/
 def active (x : Read) : Bool :=
   match x.phase with
@@ -270,5 +290,57 @@ inductive ReachableSeq (vt : Variant) : State → Prop
       step vt s (.readBegin r) = some s' → ReachableSeq vt s'
   | other {s s' : State} (st : Step) : ReachableSeq vt s → (∀ r, st ≠ .readBegin r) →
       step vt s st = some s' → ReachableSeq vt s'
+
+/-! ## Part 3 — forwarding a write transaction (`etcd.RPCServer.Txn` on a follower → `etcdProxy.Txn`) -/
+
+/-- The leader's store as far as a guarded single-key transaction sees it: the mod revision of every key
+(`none` = absent) and the revision counter. -/
+structure Store where
+  modRev : Nat → Option Nat := fun _ => none
+  rev : Nat
+
+inductive TxnShape
+  /-- `If(mod(k) = 0) Then(Put k v)` -/
+  | create
+  /-- `If(mod(k) = g) Then(Put k v) Else(Get k)` -/
+  | update (g : Nat)
+  deriving DecidableEq, Repr
+
+/-- ONE execution of the transaction on the leader: the store afterwards and whether the condition held (the
+write took effect). -/
+def execTxn (st : Store) (k : Nat) : TxnShape → Store × Bool
+  | .create =>
+    match st.modRev k with
+    | none => ({ modRev := fun i => if i = k then some (st.rev + 1) else st.modRev i, rev := st.rev + 1 }, true)
+    | some _ => (st, false)
+  | .update g =>
+    if st.modRev k = some g then
+      ({ modRev := fun i => if i = k then some (st.rev + 1) else st.modRev i, rev := st.rev + 1 }, true)
+    else (st, false)
+
+/-- What the follower tells its client. -/
+inductive FwdAnswer | ok | failed | unavailable
+  deriving DecidableEq, Repr
+
+structure FwdResult where
+  answer : FwdAnswer
+  /-- how many times the leader executed the transaction for this ONE client request -/
+  executions : Nat
+  store : Store
+  /-- the client's write took effect -/
+  applied : Bool
+
+/-- One client request forwarded by a follower.  `lost`: the leader executes the transaction but its answer
+does not arrive — the forwarded call ends with `codes.Unavailable`.  THE LAW (`resend = false`, the code as
+it is): a forwarded transaction is executed at most once per client request, and an Unavailable from the
+forward path is passed to the client.  `resend = true`: forward once more on Unavailable. -/
+def forward (resend : Bool) (st : Store) (k : Nat) (sh : TxnShape) (lost : Bool) : FwdResult :=
+  let r1 := execTxn st k sh
+  if lost then
+    if resend then
+      let r2 := execTxn r1.1 k sh
+      { answer := if r2.2 then .ok else .failed, executions := 2, store := r2.1, applied := r1.2 || r2.2 }
+    else { answer := .unavailable, executions := 1, store := r1.1, applied := r1.2 }
+  else { answer := if r1.2 then .ok else .failed, executions := 1, store := r1.1, applied := r1.2 }
 
 end KB.Server
